@@ -195,10 +195,12 @@ func verifC03Journal(cfg c03JrnCfg) {
 				for _, p := range tx.Postings {
 					found = found || c03HasTag(p.Tags, e.lineTag)
 				}
-				if !found && cx.knownClass("c03-indented-comment-tag-dropped") {
-					return
+				// class: the transaction has an indented comment line that carries a tag (input) and
+				// the tag is found nowhere in the extracted transaction (parsePosting discards the
+				// comment line). Only this assertion is left out.
+				if found || !cx.knownClass("c03-indented-comment-tag-dropped") {
+					zzverif.Assert(found, cx.msg("C03 journal: the tag of an indented comment line is not extracted"))
 				}
-				zzverif.Assert(found, cx.msg("C03 journal: the tag of an indented comment line is not extracted"))
 			}
 		case 3:
 			zzverif.Assert(len(j.Includes) > nInc, cx.msg("C03 journal: an include is missing"))
